@@ -12,6 +12,7 @@ import Driver.Genesis
 import Driver.Verify
 import Driver.Proto
 import Driver.Sync
+import Driver.Contracts
 /-
 One line per handler object. The first handler that understands a line answers it.
 -/
@@ -36,7 +37,8 @@ def registry : List Obj := [
   pureObj pureGenesis,
   pureObj VerifyD.pureVerify,
   pureObj pureProto,
-  mkObj ([] : SyncSt) syncStep
+  mkObj ([] : SyncSt) syncStep,
+  contractObj
 ]
 
 end ZV.Driver
